@@ -577,11 +577,17 @@ def range_query(rnd, rows, pkcol="a"):
             return ("ci", rnd.choice(allkeys))          # weighted by frequency: keys with many duplicates
         return ("ci", rnd.choice(present + [min(present) - 1, max(present) + 1, rnd.choice(range(0, 15))]))
     k = rnd.random()
-    if k < 0.6:
+    if k < 0.5:
         pred = ("bin", rnd.choice(["=", "<", "<=", ">", ">="]), key, bound(), G.BOOL)
-    elif k < 0.85:
+    elif k < 0.72:
         pred = ("bin", "and", ("bin", rnd.choice([">", ">="]), key, bound(), G.BOOL),
                 ("bin", rnd.choice(["<", "<="]), key, bound(), G.BOOL), G.BOOL)
+    elif k < 0.92:
+        # an equality and another condition on the key (consistent or contradictory), in either sequence
+        kb = ("ci", rnd.choice(allkeys))            # a key that is there
+        eq = ("bin", "=", key, kb, G.BOOL) if rnd.random() < 0.7 else ("bin", "=", kb, key, G.BOOL)
+        other = ("bin", rnd.choice(["=", "<", "<=", ">", ">="]), key, bound(), G.BOOL)
+        pred = ("bin", "and", eq, other, G.BOOL) if rnd.random() < 0.5 else ("bin", "and", other, eq, G.BOOL)
     else:
         pred = ("bin", rnd.choice(["=", "<", ">="]), bound(), key, G.BOOL)      # constant on the left
     if rnd.random() < 0.4:
